@@ -8,6 +8,7 @@ from . import core, gen_text
 
 PID = "C07"
 LEVEL = "exploration"
+PROFILES = ["dev", "release", "asan"]
 
 SANITY_DEFS = "(define zq-v 41) (define (zq-f x) (if x (zq-id x) x))"
 SANITY = "(zq-id (zq-f zq-v))"
@@ -249,7 +250,9 @@ def sanitizer_legs(ctx, inputs):
     """ASan over a large slice, Miri over a small one (memory-safety leg of C07)."""
     from . import sanitize
     sanitize.asan_leg(ctx, inputs, make_jobs, judge)
-    sanitize.miri_leg(ctx, inputs, make_jobs, judge)
+    if core.PART_I == 0:
+        # Miri costs about four orders of magnitude: one part runs a slice of 640 inputs on 16 processes
+        sanitize.miri_leg(ctx, inputs, make_jobs, judge)
 
 
 def replay(path):
